@@ -92,7 +92,7 @@ impl<'a, 'tcx> Cx<'a, 'tcx> {
         }
         let cn = self.tcx.crate_name(did.krate);
         let cn = cn.as_str();
-        if cn == "rs1090" || cn == "jet1090" || cn == "decode1090" || cn == "deku" {
+        if cn == "rs1090" || cn == "jet1090" || cn == "decode1090" || cn == "deku" || cn == "crossterm" {
             return true;
         }
         let p = with_no_trimmed_paths!(self.tcx.def_path_str(did));
